@@ -410,6 +410,10 @@ async def fs_listing(net, hyg, plan):
             else:
                 with open(fp, "wb") as f:
                     f.write(b"x" * size)
+            if plan.get("modes") and i % 3 == 0:
+                # permission bits of every kind, also set-uid / set-gid / sticky with and without the execute bit below them
+                # (ls shows s / S, t / T); the listing says the same about names, types and sizes whatever the mode is
+                os.chmod(fp, rng.choice([0o644, 0o755, 0o600, 0o4755, 0o4644, 0o2755, 0o2644, 0o1777, 0o1644, 0o6644, 0o7777, 0o444, 0o7000 | 0o444]))
             if i % 5 == 4:
                 # written just now (with whatever fraction of a second the file system records): hour and minute are shown
                 mtime = os.stat(fp).st_mtime
@@ -444,12 +448,23 @@ async def fs_listing(net, hyg, plan):
                 want = time.strftime("%Y%m%d%H%M%S", time.gmtime(mtime)) if kind == "mlsd" else expected_ls(mtime, now)
                 if info.get("modify") != want:
                     viol.append({"key": f"{kind}-modify-wrong:{plan['fs']}", "msg": f"{p_.name}: modify {info.get('modify')} vs {want}"})
+        async def listing(kind, **kw):
+            try:
+                judge(kind, await c.list("/dir", **kw))
+            except (ValueError, aioftp.StatusCodeError) as e:
+                # the listing of a directory that exists and is readable cannot be had at all
+                viol.append({"key": f"{kind}-raises-{type(e).__name__}:{plan['fs']}",
+                             "msg": f"{kind} on {plan['fs']} (encoding {enc}, special modes {bool(plan.get('modes'))}): {e!r}"[:400]})
         if plan["fallback"] == "no_mlsd":
-            judge("list-fallback", await c.list("/dir"))
+            await listing("list-fallback")
         else:
-            judge("mlsd", await c.list("/dir"))
-            judge("list", await c.list("/dir", raw_command="LIST"))
-        await c.quit()
+            await listing("mlsd")
+            if not viol:
+                await listing("list", raw_command="LIST")
+        if not viol:
+            await c.quit()
+        else:
+            c.close()
         await server.close()
         return {"violations": viol[:6], "monitors": mon, "sig": sig_of(["fs", plan]), "nontrivial": plan["n"] >= 2,
                 "sample": {"fs": plan["fs"], "entries": plan["n"], "encoding": enc}}
@@ -510,7 +525,7 @@ def gen_cases(tier, seed):
     # the file-system back ends on a real directory (entries with real sizes and mtimes set by utime)
     for i in range(12 if tier == "quick" else 1200):
         plans.append({"fs": ["pathio", "async"][i % 2], "seed": seed * 11 + i, "n": rng.choice([0, 1, 5, 31, 32, 33, 34, 64, 65, 66, 100, 130]),
-                      "encoding": [None, "latin-1"][(i // 2) % 2], "fallback": [False, "no_mlsd"][(i // 4) % 2]})
+                      "encoding": [None, "latin-1"][(i // 2) % 2], "fallback": [False, "no_mlsd"][(i // 4) % 2], "modes": (i // 8) % 2 == 1})
     per = 10
     for j, i in enumerate(range(0, len(plans), per)):
         cases.append({"kind": "e2e", "tz": ["UTC", "IST-5:30", "EST5EDT"][j % 3], "plans": plans[i:i + per]})
